@@ -33,7 +33,12 @@ def scenarios(rng, n, tier):
         for _ in range(rng.randint(3, 8)):
             c = rng.random()
             if c < 0.55:
-                scn["ops"].append({"op": "exec", "rel": [rng.randrange(nj), 0], "force": True})
+                e = {"op": "exec", "rel": [rng.randrange(nj), 0], "force": True}
+                if nj >= 2 and rng.random() < 0.25:
+                    # a callback deletes another job of the batch: a job that is already queued still runs - with its arguments
+                    a, b = rng.sample(range(nj), 2)
+                    e["scripts"] = {str(a): [{"op": "del", "key": b}]}
+                scn["ops"].append(e)
             elif c < 0.85:
                 scn["ops"].append({"op": "mutate", "key": rng.randrange(nj), "what": rng.choice(["kwargs", "tags", "returned_tags", "all", "job_kwargs"]), "how": rng.choice(["swap", "clear"])})
             else:
